@@ -345,7 +345,7 @@ def main():
     for j in range(2):
         mk = lambda: np.sin(2 * np.pi * (3 + j) * t) + 0.3 * rng.normal(size=len(t))
         recs.append(h.SeismicRecording3C(h.TimeSeries(mk(), 0.01), h.TimeSeries(mk(), 0.01), h.TimeSeries(mk(), 0.01)))
-    ntr, nsteps = (40, 9) if run.quick else (1200, 12)
+    ntr, nsteps = (40, 9) if run.quick else (360, 12)
     traces = []
     for ti in range(ntr):
         d = Driver(h, rng, wd, recs)
@@ -372,8 +372,11 @@ def main():
                 run.violation(f"settings:{op}:raised", f"scripted history ({c}, variant {variant}): {op} roles={roles} raised {msg}",
                               dict(kind="settings-raise", ops=[e["op"] for e in d.events]))
             traces.append(dict(ev=d.events))
-    acc, res = heaplog.validate("TraceSettingsHeap", traces, "trace-C15", timeout=3000)
-    run.add_tlc(res, "TraceSettingsHeap: every recorded step against the storage/content rules")
+    acc = set()
+    for b0 in range(0, len(traces), 120):          # batches keep a single TLC invocation well inside its time limit
+        acc_b, res = heaplog.validate("TraceSettingsHeap", traces[b0:b0 + 120], "trace-C15", timeout=3000)
+        acc |= {b0 + i for i in acc_b}
+        run.add_tlc(res, f"TraceSettingsHeap: every recorded step against the storage/content rules (histories {b0 + 1}..{min(b0 + 120, len(traces))})")
     run.traces += len(traces)
     ops = {}
     for i, tr in enumerate(traces, start=1):
